@@ -96,10 +96,15 @@ var hostileUE = []uint64{255, 256, 1023, 65535, 65536, 1 << 20, 1<<31 - 1, 1 << 
 
 // soup appends nFields random fields.
 func soup(r *hx.Rng, w *bitw, nFields int, pHostile int) {
+	pOne := r.Pick(50, 50, 80, 20, 95) // bias of the flags: long runs of present-flags reach nested structures
 	for i := 0; i < nFields; i++ {
 		switch k := r.Intn(100); {
 		case k < 40:
-			w.put(r.U64()&1, 1)
+			if r.Intn(100) < pOne {
+				w.put(1, 1)
+			} else {
+				w.put(0, 1)
+			}
 		case k < 75:
 			if r.Intn(100) < pHostile {
 				if r.Intn(8) == 0 {
